@@ -97,6 +97,16 @@ def main():
                     shutil.rmtree(os.path.join(V, 'replays', prop, 'found'), ignore_errors=True)
                     if c.returncode == 1:
                         break
+                # a change that touches ground two properties share may be caught by the other property's check
+                if ver.get('check_quick', {}).get('exit') != 1:
+                    for other in meta.get('also_check', []):
+                        c = run([os.path.join(V, 'check'), other, '--tier', 'quick'], cwd=V, env=env)
+                        viol = sorted(set(re.findall(r'^violation bucket=(\S+)', c.stdout, flags=re.M)))
+                        shutil.rmtree(os.path.join(V, 'replays', other, 'found'), ignore_errors=True)
+                        if c.returncode == 1:
+                            ver['check_quick'] = {'exit': 1, 'buckets': ['%s:%s' % (other, v.rstrip(':')) for v in viol][:6],
+                                                  'by': other}
+                            break
         finally:
             run(['git', '-C', '/repo', 'worktree', 'remove', '--force', wt])
         meta['verification'] = ver
